@@ -74,7 +74,8 @@ def _options(rnd, spec):
     r = rnd.random()
     if r < 0.3:
         base = os.path.basename(rnd.choice(dirs)) if dirs else "util"
-        o["exclusions"] = rnd.choice([("*__init__.py",), ("*util*", "*/h"), ("*/" + base,), ("*/" + base, "*m0.py"), ("*_b*",)])
+        # the last ones textually match names of imported EXTERNAL modules (json, logging.handlers, extlib, numpyish.linalg)
+        o["exclusions"] = rnd.choice([("*__init__.py",), ("*util*", "*/h"), ("*/" + base,), ("*/" + base, "*m0.py"), ("*_b*",), ("*handlers*",), ("*json*", "*lib*"), ("*linalg",)])
     elif r < 0.45:
         o["exclusions"] = ()
         o["regex_exclusions"] = rnd.choice([(r".*/(a|ab)$",), (r".*/__init__\.py$",), (r".*/m\d\.py",), (r".*/util(/|$)", r".*/h\.py$")])
